@@ -161,7 +161,7 @@ func runCesiumInject(c tcase, target int, serialSkip [][]bool, serial bool) (obs
 		go func() { defer close(adone); runThread(0) }()
 		select {
 		case <-adone:
-		case <-time.After(40 * time.Second):
+		case <-time.After(90 * time.Second):
 			obs.Stall = true
 			return
 		}
@@ -173,7 +173,7 @@ func runCesiumInject(c tcase, target int, serialSkip [][]bool, serial bool) (obs
 		if fired {
 			select {
 			case <-done:
-			case <-time.After(40 * time.Second):
+			case <-time.After(90 * time.Second):
 				obs.Stall = true
 				return
 			}
@@ -365,7 +365,7 @@ func runDomainInject(c tcase, target int, serialSkip [][]bool, serial bool) (obs
 		go func() { defer close(adone); runThread(0, true) }()
 		select {
 		case <-adone:
-		case <-time.After(40 * time.Second):
+		case <-time.After(90 * time.Second):
 			obs.Stall = true
 			return
 		}
@@ -377,7 +377,7 @@ func runDomainInject(c tcase, target int, serialSkip [][]bool, serial bool) (obs
 		if fired {
 			select {
 			case <-done:
-			case <-time.After(40 * time.Second):
+			case <-time.After(90 * time.Second):
 				obs.Stall = true
 				return
 			}
@@ -429,7 +429,20 @@ func runInjectCase(c tcase) result {
 			}
 		}
 	}
+	// SOME serial order must explain the run: try A;B then B;A (the scenario may be a deliberate conflict)
 	r.Serial, _ = run(c, -1, skip, true)
+	r.Order = []int{0, 1}
+	if !serialExplains(r.Conc, r.Serial) && len(c.Threads) == 2 {
+		c2 := c
+		c2.Threads = [][]op{c.Threads[1], c.Threads[0]}
+		skip2 := [][]bool{skip[1], skip[0]}
+		so, _ := run(c2, -1, skip2, true)
+		so.Outcomes = [][]string{so.Outcomes[1], so.Outcomes[0]}
+		if serialExplains(r.Conc, so) {
+			r.Serial = so
+			r.Order = []int{1, 0}
+		}
+	}
 	sort.Strings(r.Conc.Msgs)
 	return r
 }
